@@ -198,7 +198,13 @@ def tag_text(n, md_style=0):
     return plain
 
 def render_flow(n, md_style=0, qs=0):
+    # YAML anchors / aliases (rendering hints 'anchor': name on a node, {'alias': name} as a node): the same node object at
+    # several paths. Outside the model's domain (trees without sharing); used by oracle-only case families.
+    if 'alias' in n:
+        return '*' + n['alias'] + ' '
     tt = tag_text(n, md_style)
+    if 'anchor' in n:
+        tt = '&' + n['anchor'] + (' ' + tt if tt else '')
     pre = tt + ' ' if tt else ''
     if 's' in n:
         s = n['s']
@@ -211,10 +217,19 @@ def render_flow(n, md_style=0, qs=0):
         return pre + '[' + ', '.join(render_flow(c, md_style, qs) or '~' for c in n['q']) + ']'
     return pre + '{' + ', '.join(f'{render_key(k)}: {render_flow(c, md_style, qs)}' for k, c in n['m']) + '}'
 
-def render_block(n, md_style=0, qs=0, ind=0):
-    """block style; returns text that follows 'key:' or '-' (starting with ' ' or a newline)"""
+def render_block(n, md_style=0, qs=0, ind=0, lit=False):
+    """block style; returns text that follows 'key:' or '-' (starting with ' ' or a newline); with `lit`, single-line string
+    scalars are written as block scalars (`|-` literal or `>-` folded): still strings, whatever their text looks like"""
+    if 'alias' in n:
+        return ' *' + n['alias'] + '\n'
     tt = tag_text(n, md_style)
+    if 'anchor' in n:
+        tt = '&' + n['anchor'] + (' ' + tt if tt else '')
     pad = '  ' * ind
+    if lit and 's' in n and isinstance(n['s'].get('l'), str):
+        v = n['s']['l']
+        if v and v == v.strip() and '\n' not in v and v.isprintable() and not v.startswith('#'):
+            return (' ' + tt if tt else '') + (' |-' if len(v) % 2 else ' >-') + '\n' + pad + '  ' + v + '\n'
     if 's' in n:
         body = render_flow({k: v for k, v in n.items() if k not in ('t', 'kw', 'txt')}, md_style, qs)
         return (' ' + tt if tt else '') + (' ' + body if body else '') + '\n'
@@ -223,13 +238,13 @@ def render_block(n, md_style=0, qs=0, ind=0):
             return (' ' + tt if tt else '') + ' []\n'
         out = (' ' + tt if tt else '') + '\n'
         for c in n['q']:
-            out += pad + '-' + render_block(c, md_style, qs, ind + 1)
+            out += pad + '-' + render_block(c, md_style, qs, ind + 1, lit)
         return out
     if not n['m']:
         return (' ' + tt if tt else '') + ' {}\n'
     out = (' ' + tt if tt else '') + '\n'
     for k, c in n['m']:
-        out += pad + render_key(k) + ':' + render_block(c, md_style, qs, ind + 1)
+        out += pad + render_key(k) + ':' + render_block(c, md_style, qs, ind + 1, lit)
     return out
 
 def render_doc(raw, style='flow', md_style=0, qs=0):
@@ -238,7 +253,7 @@ def render_doc(raw, style='flow', md_style=0, qs=0):
     tt = tag_text(raw, md_style)
     out = (tt + '\n') if tt else ''
     for k, c in raw['m']:
-        out += render_key(k) + ':' + render_block(c, md_style, qs, 1)
+        out += render_key(k) + ':' + render_block(c, md_style, qs, 1, style == 'blocklit')
     return out
 
 # ----------------------------------------------------------------------------------------------
